@@ -20,7 +20,7 @@ use crate::verif_common::*;
 type PN = &'static str;
 type VN = &'static str;
 
-// @h c15_cell | Vow::{new,fulfil,get,bind}; Bound::{get,clone,eq}; Word::from(Bound) / Word::get; SyncType for EntryIdx/u64 | initial value, two successive positions (u32), handles taken before, between and after the assignments | every handle and every Word derived from it reports the position assigned last; handles of different cells are independent | 2 assignments, 2 cells
+// @h c15_cell | Vow::{new,fulfil,get,bind}; Bound::{get,clone,eq}; Word::from(Bound) / Word::get; SyncType for EntryIdx/u64 | initial value, two successive positions (u32), handles taken before, between and after the assignments, deferred values read between the assignments (as a sort on a reference key does) and after them | every handle and every Word derived from it reports the position assigned last, also when it was already read earlier; handles of different cells are independent | 2 assignments, 2 cells
 // @h c15_add_entry | EntryStore::{new,add_entry,len}; BasicEntry::{set_idx,get_idx} (real BasicEntry built by struct literal) | two entries added to an unsorted store; a later re-assignment of the first entry's position (symbolic) | the handle returned by add_entry reports the insertion position, is the entry's own cell (a later set_idx on the stored entry shows through it) and is not shared between entries | 2 entries; Vec capacity hint 2
 // @h c15_ref_column | schema::Property::{new_uint,process,finalize}; layout::Properties::serialize_entry UnsignedWord arm; Word::from(Bound<EntryIdx>) | a reference property bound to another entry's position; the position is assigned (twice, symbolic) after the value was built and before the column is processed | the column is sized from, and the entry bytes hold, the position assigned last (never the value the cell had when the reference was created) | 2 referencing entries, u32 positions; primitive writes through the ghost log
 // @h c15_sref_column | same for SignedWord (Word<i64> closure over a Bound<EntryIdx>) | position u32 | bytes hold the final position, width fits | 2 entries
@@ -45,6 +45,8 @@ vharness! {
         let between = vow.bind();
         let w_between: Word<EntryIdx> = between.clone().into();
         assert!(pos(&before) == p1 && pos(&between) == p1, "VERIF: a handle does not report the assigned position");
+        // an early reader (a sort pass comparing on a reference key reads the value before positions are final)
+        assert!(w_before.get() == p1 as u64 && w_between.get().into_u32() == p1, "VERIF: a deferred value does not report the position assigned so far");
         vow.fulfil(EntryIdx::from(p2));
         let after = vow.bind();
         assert!(pos(&before) == p2 && pos(&between) == p2 && pos(&after) == p2, "VERIF: a handle taken earlier does not report the position assigned last");
